@@ -274,3 +274,68 @@ Proof.
   subst del. rewrite np_delete_nil, I, app_nil_r in Hp. rewrite np_delete_nil, I, app_nil_r in Hc. rewrite np_delete_nil, I, app_nil_r in Hg.
   repeat split; assumption.
 Qed.
+
+(* ---------- C08: self-replacement with a pattern that carries no terms leaves every term of the structure alone ---------- *)
+Definition termless (P : atoms) : Prop :=
+  k_tup (bonds P) = [] /\ k_tup (angles P) = [] /\ k_tup (dihedrals P) = [] /\ k_tup (impropers P) = [].
+Definition same_terms (a b : atoms) : Prop :=
+  (k_tup (bonds a) = k_tup (bonds b) /\ k_typ (bonds a) = k_typ (bonds b)) /\
+  (k_tup (angles a) = k_tup (angles b) /\ k_typ (angles a) = k_typ (angles b)) /\
+  (k_tup (dihedrals a) = k_tup (dihedrals b) /\ k_typ (dihedrals a) = k_typ (dihedrals b)) /\
+  (k_tup (impropers a) = k_tup (impropers b) /\ k_typ (impropers a) = k_typ (impropers b)).
+
+Lemma extend_kind_termless off phi k ko : k_tup ko = [] ->
+  k_tup (extend_kind off phi k ko) = k_tup k /\ k_typ (extend_kind off phi k ko) = k_typ k.
+Proof. intros H. unfold extend_kind. destruct (merge_xf (k_xl k) (k_xf k) (k_xl ko) (k_xf ko)) as [[nl xs] xo]. rewrite H. split; reflexivity. Qed.
+
+Lemma find_idx_none {A} (p : A -> bool) l : (forall x, In x l -> p x = false) -> find_idx p l = [].
+Proof.
+  unfold find_idx. generalize 0. induction l as [|x l IH]; intros i H; cbn [find_idx_from]; [reflexivity|].
+  rewrite (H x (or_introl eq_refl)). apply IH. intros y Hy. apply H. right; exact Hy.
+Qed.
+
+Lemma touches_nil t : touches [] t = false.
+Proof. unfold touches. induction t as [|v t IH]; [reflexivity|]. cbn [existsb]. rewrite IH. reflexivity. Qed.
+
+Lemma delitem_kind_nil k : k_tup (delitem_kind [] k) = k_tup k /\ k_typ (delitem_kind [] k) = k_typ k.
+Proof.
+  unfold delitem_kind. destruct (k_tup k) as [|t ts] eqn:E; [rewrite E; split; reflexivity|].
+  unfold delete_and_reindex. rewrite (find_idx_none (touches []) (t :: ts)) by (intros x _; apply touches_nil).
+  cbn [k_tup k_typ]. rewrite !np_delete_nil. split; reflexivity.
+Qed.
+
+Lemma rstep_termless ra ig repl search offs : termless repl -> forall sel acc del a del',
+  rstep ra ig repl search offs sel acc del = Some (a, del') -> same_terms a acc.
+Proof.
+  intros [Tb [Ta [Td Ti]]]. induction sel as [|m rest IH]; intros acc del a del' H; cbn [rstep] in H.
+  - injection H as <- _. repeat split.
+  - destruct (disjointb del (dels ra repl search m) || ig); [|discriminate].
+    specialize (IH _ _ _ _ H). unfold same_terms in *. unfold extend, extend_with in IH.
+    destruct (merge_xf (a_xl acc) (a_xf acc) (a_xl (with_pos repl (m_placed m))) (a_xf (with_pos repl (m_placed m)))) as [[nl xs] xo].
+    cbn [bonds angles dihedrals impropers with_pos] in IH.
+    destruct IH as [[B1 B2] [[A1 A2] [[D1 D2] [I1 I2]]]].
+    rewrite B1, B2, A1, A2, D1, D2, I1, I2.
+    repeat split; apply extend_kind_termless; assumption.
+Qed.
+
+Theorem self_replace_terms S P ig sel S' k : pattern_distinct P -> natoms P <> 0 -> termless P ->
+  Forall (fun m => length (m_idx m) = natoms P /\ length (m_placed m) = natoms P) sel ->
+  replace_from S P P false ig sel = Ok S' k -> same_terms S' S.
+Proof.
+  intros HP Hn HT Hsel H. destruct (replace_ok_atoms S P P false ig sel S' k Hn H) as [_ [del [Hnd [Hin _]]]].
+  assert (D : forall x, ~ exists m, In m sel /\ In x (dels false P P m)).
+  { intros x [m [Hm Hx]]. rewrite Forall_forall in Hsel. destruct (Hsel m Hm) as [L1 _]. rewrite (self_dels_nil P m HP L1) in Hx. destruct Hx. }
+  unfold replace_from in H. destruct (natoms P) as [|n] eqn:En; [congruence|].
+  destruct (extend_types S P) as [S1 offs] eqn:ET.
+  destruct (rstep false ig P P offs sel S1 []) as [[a del']|] eqn:ER; [|discriminate]. injection H as <- _.
+  assert (D' : del' = []).
+  { destruct (rstep_some false ig P P offs sel S1 [] a del' ER (NoDup_nil _)) as [_ [Hin' _]].
+    destruct del' as [|x r]; [reflexivity|]. exfalso. destruct (proj1 (Hin' x) (or_introl eq_refl)) as [[]|E]. exact (D x E). }
+  subst del'. pose proof (rstep_termless false ig P P offs HT sel S1 [] a [] ER) as Q.
+  assert (Q1 : same_terms S1 S) by (unfold extend_types in ET; injection ET as <- _; repeat split).
+  unfold same_terms in *. cbn [delitem bonds angles dihedrals impropers].
+  destruct Q as [[B1 B2] [[A1 A2] [[D1 D2] [I1 I2]]]]. destruct Q1 as [[B1' B2'] [[A1' A2'] [[D1' D2'] [I1' I2']]]].
+  destruct (delitem_kind_nil (bonds a)) as [X1 X2]. destruct (delitem_kind_nil (angles a)) as [X3 X4].
+  destruct (delitem_kind_nil (dihedrals a)) as [X5 X6]. destruct (delitem_kind_nil (impropers a)) as [X7 X8].
+  rewrite X1, X2, X3, X4, X5, X6, X7, X8. repeat split; congruence.
+Qed.
